@@ -11,52 +11,9 @@
 (* Acceptance: every line consumed (TraceAccepted) - the verdicts are      *)
 (* printed and classified by the check driver against known_findings.json. *)
 (***************************************************************************)
-EXTENDS GuardEval, Json, IOUtils
-
-Rec == ndJsonDeserialize(IOEnv.TRACE)
+EXTENDS TraceCommon
 
 VARIABLE l
-
-AllDevs == {"prefix_not_ignored_on_binary", "filter_after_index_outer_scope",
-            "prefix_not_ignored_on_call"}
-
-PanicKinds == {"panic:filter-first", "panic:filter-on-map"}
-
-\* does the observation equal the denotation?
-Agrees(obs, d) ==
-  CASE obs.kind = "ok" ->
-         /\ d.kind = "ok"
-         /\ d.file = obs.file
-         /\ d.rules = obs.rules
-         /\ d.tree = obs.tree
-    [] obs.kind = "err" -> d.kind = "err" /\ d.e \notin PanicKinds
-    [] obs.kind = "panic" -> d.kind = "err" /\ d.e \in PanicKinds
-    [] OTHER -> FALSE
-
-DevOrder == <<{"prefix_not_ignored_on_binary"}, {"filter_after_index_outer_scope"},
-              {"prefix_not_ignored_on_call"},
-              {"prefix_not_ignored_on_binary", "filter_after_index_outer_scope"},
-              {"prefix_not_ignored_on_binary", "prefix_not_ignored_on_call"},
-              {"filter_after_index_outer_scope", "prefix_not_ignored_on_call"},
-              AllDevs>>
-
-RECURSIVE FirstDev(_, _)
-FirstDev(line, j) ==
-  IF j > Len(DevOrder) THEN 0
-  ELSE IF Agrees(line.obs, Denote(line.prog, line.doc, DevOrder[j])) THEN j
-  ELSE FirstDev(line, j + 1)
-
-Brief(d) == IF d.kind = "ok" THEN [kind |-> "ok", file |-> d.file, rules |-> d.rules]
-            ELSE [kind |-> "err", e |-> d.e]
-
-Judge(line) ==
-  LET d0 == Denote(line.prog, line.doc, {}) IN
-  IF Agrees(line.obs, d0)
-  THEN PrintT(<<"JUDGE", line.i, "ok", d0.kind>>)
-  ELSE LET j == FirstDev(line, 1) IN
-       IF j > 0
-       THEN PrintT(<<"JUDGE", line.i, "dev", ToJson(DevOrder[j]), ToJson(Brief(d0))>>)
-       ELSE PrintT(<<"JUDGE", line.i, "mismatch", ToJson(d0)>>)
 
 Init == l = 1
 Next == l <= Len(Rec) /\ Judge(Rec[l]) /\ l' = l + 1
